@@ -106,6 +106,9 @@ type w7World struct {
 	// entities for which some compact journal dropped a delivered event because its compact
 	// content equalled what it had (it keeps the older version number)
 	skipped map[w7Key]bool
+	// the versions so dropped, by any compact journal / per compact journal (by replica name)
+	dropped   map[w7Key]map[int64]bool
+	droppedBy map[string]map[w7Key]map[int64]bool
 }
 
 func TestVerifW7(t *testing.T) {
@@ -115,7 +118,8 @@ func TestVerifW7(t *testing.T) {
 
 func w7Exec(t *testing.T, r *verifsim.Run) {
 	c := r.C
-	w := &w7World{r: r, c: c, memo: map[w7MemoKey]tlmetadata.Event{}, skipped: map[w7Key]bool{}}
+	w := &w7World{r: r, c: c, memo: map[w7MemoKey]tlmetadata.Event{}, skipped: map[w7Key]bool{},
+		dropped: map[w7Key]map[int64]bool{}, droppedBy: map[string]map[w7Key]map[int64]bool{}}
 	nAgg := 1 + c.Intn(2, "aggregators")
 	nAgents := 2 + c.Intn(3, "agents")
 	w.faulty = c.Intn(3, "faulty") != 0 // one third of the runs are fault free
@@ -545,7 +549,19 @@ func (w *w7World) step(rep *w7Replica, drain bool) (fin bool, changed bool, err 
 				continue
 			}
 			if have, ok := rep.j.journal[journalEventID{typ: e.EventType, id: e.Id}]; ok && have.Version < e.Version {
-				w.skipped[w7Key{e.EventType, e.Id}] = true
+				key := w7Key{e.EventType, e.Id}
+				w.skipped[key] = true
+				if w.dropped[key] == nil {
+					w.dropped[key] = map[int64]bool{}
+				}
+				w.dropped[key][e.Version] = true
+				if w.droppedBy[rep.name] == nil {
+					w.droppedBy[rep.name] = map[w7Key]map[int64]bool{}
+				}
+				if w.droppedBy[rep.name][key] == nil {
+					w.droppedBy[rep.name][key] = map[int64]bool{}
+				}
+				w.droppedBy[rep.name][key][e.Version] = true
 				w.r.Probe("compact_journal_kept_older_version_of_equal_content")
 			}
 			if e.EventType == format.MetricEvent && e.Name == format.StatshouseJournalDump {
